@@ -1,8 +1,13 @@
 package mediumsim
 
 import (
+	"archive/zip"
+	"bytes"
+	"compress/flate"
+	"encoding/binary"
 	"encoding/json"
 	"fmt"
+	"hash/crc32"
 	"hash/fnv"
 	"math"
 	"os"
@@ -30,6 +35,12 @@ type Config struct {
 	RepoDir  string
 	Scratch  string
 	Known    []evid.Finding
+	// Journal: file into which the sequence number of the case about to be executed is written (so that the
+	// driver knows which case killed a worker that died of a fatal runtime error). EmitAt >= 0: do not execute
+	// anything, regenerate the case stream and write case number EmitAt to EmitOut.
+	Journal string
+	EmitAt  int64
+	EmitOut string
 }
 
 type base struct {
@@ -193,6 +204,8 @@ type gen struct {
 	vcap  int
 	check func(*Case, *Env) []verdict
 	recent []*Case // the last few cases this process executed (prelude of a recorded violation)
+	seq     int64
+	journal *os.File
 }
 
 func (g *gen) mine() bool {
@@ -201,7 +214,12 @@ func (g *gen) mine() bool {
 	return int(i%int64(g.cfg.NW)) == g.cfg.W
 }
 
-func (g *gen) expired() bool { return g.stop || time.Now().After(g.cfg.Deadline) }
+func (g *gen) expired() bool {
+	if g.cfg.EmitAt >= 0 {
+		return g.stop // regenerate the stream until the wanted case, whatever the clock says
+	}
+	return g.stop || time.Now().After(g.cfg.Deadline)
+}
 
 func hashCase(c *Case) uint64 {
 	h := fnv.New64a()
@@ -213,6 +231,21 @@ func hashCase(c *Case) uint64 {
 
 // run executes one case. nontrivial says whether the damage actually changed what the reader consumed.
 func (g *gen) run(c *Case, nontrivial bool) {
+	seq := g.seq
+	g.seq++
+	if g.cfg.EmitAt >= 0 {
+		if seq == g.cfg.EmitAt {
+			raw, _ := json.Marshal(c)
+			os.WriteFile(g.cfg.EmitOut, raw, 0o644)
+			g.stop = true
+		}
+		return
+	}
+	if g.journal != nil {
+		var b [8]byte
+		binary.LittleEndian.PutUint64(b[:], uint64(seq))
+		g.journal.WriteAt(b[:], 0)
+	}
 	g.st.Evals++
 	vs := g.check(c, g.env)
 	for _, f := range c.Faults {
@@ -334,6 +367,9 @@ func genBases() []base {
 func Worker(cfg Config) *evid.Stats {
 	st := evid.NewStats()
 	g := &gen{cfg: cfg, st: st, env: &Env{Scratch: cfg.Scratch, Stats: st}, vcap: 8}
+	if cfg.Journal != "" && cfg.EmitAt < 0 {
+		g.journal, _ = os.Create(cfg.Journal)
+	}
 	switch cfg.Prop {
 	case "C18":
 		g.check = Check18
@@ -433,6 +469,9 @@ func (g *gen) families18() {
 	for _, b := range small {
 		g.zipFamily(b)
 	}
+	for _, b := range small {
+		g.zipForgedFamily(b)
+	}
 	// C + G: seeded search, until the budget is used
 	g.randomFamily(small, big)
 }
@@ -456,6 +495,18 @@ func (g *gen) opsetFamily() {
 		m.Opset = trip[0]
 		m.Opsets = trip[1:]
 		g.rawCase("opset", fmt.Sprint("opsets=", trip), m.Bytes(), "bytes", true, "")
+	}
+	// every ordered triple over the values where comparisons, subtractions and conversions go wrong
+	tv := []int64{math.MinInt64, -(1 << 62), -2, -1, 0, 1, 12, 13, 14, 1 << 31, 1 << 62, math.MaxInt64}
+	for _, x := range tv {
+		for _, y := range tv {
+			for _, z := range tv {
+				m := *b
+				m.Opset = x
+				m.Opsets = []int64{y, z}
+				g.rawCase("opset", fmt.Sprintf("opsets=[%d %d %d]", x, y, z), m.Bytes(), "bytes", true, "")
+			}
+		}
 	}
 	// no import at all
 	mp := b.Proto()
@@ -694,6 +745,67 @@ func (g *gen) structuredFamily(b base) {
 		emit(fmt.Sprintf("node[%d] outputs dropped", ni), func(mp *onnx.ModelProto) { mp.Graph.Node[ni].Output = nil })
 		emit(fmt.Sprintf("node[%d] attributes dropped", ni), func(mp *onnx.ModelProto) { mp.Graph.Node[ni].Attribute = nil })
 		emit(fmt.Sprintf("node[%d] empty", ni), func(mp *onnx.ModelProto) { mp.Graph.Node[ni] = &onnx.NodeProto{} })
+	}
+}
+
+// forgedZip builds an archive whose entry declares sizes that are not those of its data (CreateRaw writes the
+// header as given). zip64 extra fields are emitted by archive/zip whenever a size needs them.
+func forgedZip(data []byte, method uint16, declaredUncompressed, declaredCompressed uint64, crc uint32) []byte {
+	var payload []byte
+	if method == zip.Deflate {
+		var cb bytes.Buffer
+		fw, _ := flate.NewWriter(&cb, flate.DefaultCompression)
+		fw.Write(data)
+		fw.Close()
+		payload = cb.Bytes()
+	} else {
+		payload = data
+	}
+	if declaredCompressed == 0 {
+		declaredCompressed = uint64(len(payload))
+	}
+	var buf bytes.Buffer
+	zw := zip.NewWriter(&buf)
+	w, err := zw.CreateRaw(&zip.FileHeader{Name: "model.onnx", Method: method, CRC32: crc, CompressedSize64: declaredCompressed, UncompressedSize64: declaredUncompressed})
+	if err != nil {
+		panic(err)
+	}
+	w.Write(payload)
+	if err := zw.Close(); err != nil {
+		panic(err)
+	}
+	return buf.Bytes()
+}
+
+// zipForgedFamily: archives that are structurally fine but lie about the entry's size or checksum.
+func (g *gen) zipForgedFamily(b base) {
+	real := uint64(len(b.data))
+	crc := crc32.ChecksumIEEE(b.data)
+	sizes := []uint64{0, 1, real - 1, real, real + 1, 2 * real, 1 << 16, 1 << 31, 1<<32 - 1, 1 << 32, 1<<32 + 5, 1 << 40, 1 << 48, 1 << 50, 1 << 62, 1 << 63, 1<<64 - 1}
+	for _, method := range []uint16{zip.Store, zip.Deflate} {
+		rd := "zip-store"
+		if method == zip.Deflate {
+			rd = "zip-deflate"
+		}
+		for _, sz := range sizes {
+			for _, c := range []uint32{crc, crc ^ 1} {
+				if !g.mine() || g.stop {
+					continue
+				}
+				arch := forgedZip(b.data, method, sz, 0, c)
+				g.run(&Case{Family: "zip-forged-header", Base: fmt.Sprintf("%s|%s declared=%d crc_ok=%v", b.name, rd, sz, c == crc), Reader: rd, ZipFail: -1, Data: arch,
+					Faults: []medium.Fault{{Kind: "zip-forged-size"}}}, sz != real || c != crc)
+			}
+		}
+		// a lying compressed size as well
+		for _, csz := range []uint64{1, real / 2, real + 7, 1 << 33, 1<<64 - 1} {
+			if !g.mine() || g.stop {
+				continue
+			}
+			arch := forgedZip(b.data, method, real, csz, crc)
+			g.run(&Case{Family: "zip-forged-header", Base: fmt.Sprintf("%s|%s compressed=%d", b.name, rd, csz), Reader: rd, ZipFail: -1, Data: arch,
+				Faults: []medium.Fault{{Kind: "zip-forged-size"}}}, true)
+		}
 	}
 }
 
